@@ -867,6 +867,95 @@ def rule_r11(prog, res):
               'lookup', 'C17', c17.rule_clean_tree, prog, Result)
 
 
+# ------------------------------------------------------------------ R12
+def rule_r12(prog, res):
+    res.rule('R12', 'readers look at the kind of what they were handed before '
+             'they use it as that kind: ".type" of a member is read only for '
+             'XmlAttribute members; a document value is iterated only behind '
+             'a kind test')
+    x = prog.cls('spyne.protocol.xml:XmlDocument')
+    f = x.methods.get('complex_from_element')
+    if f is None:
+        raise AnalysisError('XmlDocument.complex_from_element', 'not found')
+    looked_up = set()
+    for a in walk_no_defs(f.node):
+        if isinstance(a, ast.Assign) and isinstance(a.value, ast.Call) and \
+                call_name(a.value) == 'get' and 'type_info' in unparse(
+                    a.value.func.value):
+            for t in a.targets:
+                for nm in ast.walk(t):
+                    if isinstance(nm, ast.Name):
+                        looked_up.add(nm.id)
+    looked_up -= {'key', 'k'}
+    n = 0
+    for at in walk_no_defs(f.node):
+        if not (isinstance(at, ast.Attribute) and at.attr == 'type' and
+                isinstance(at.value, ast.Name) and at.value.id in looked_up):
+            continue
+        n += 1
+        st = at
+        while not isinstance(st, ast.stmt):
+            st = st._parent
+        atoms = guardspec.atoms_at(st, f.node)
+        ok = any(t.startswith('issubclass(%s, ' % at.value.id) and
+                 'XmlAttribute' in t and pol for t, pol in atoms)
+        where = '%s:%d' % (f.module.relpath, at.lineno)
+        res.ob('R12', where, 'complex_from_element reads %s.type %s' % (
+            at.value.id, 'behind an XmlAttribute test' if ok else
+            'without an XmlAttribute test'), 'ok' if ok else 'VIOLATED')
+        if not ok:
+            res.finding('R12', 'XmlDocument.complex_from_element|%s.type|'
+                        'no-kind-test' % at.value.id, where, 'the member an '
+                        'attribute is named after is used as an XmlAttribute '
+                        '(%s.type) without testing that it is one: an '
+                        'attribute carrying the name of an ordinary member '
+                        'raises AttributeError out of the request' %
+                        at.value.id)
+    res.floor('R12', 'reads of the wrapped type of an attribute member', n, 6)
+    # dict documents: iteration over a document value
+    h = prog.cls('spyne.protocol.dictdoc.hier:HierDictDocument')
+    g = h.methods.get('_doc_to_object')
+    docvals = {'doc'}
+    for loop in walk_no_defs(g.node):
+        if isinstance(loop, ast.For) and isinstance(loop.target, ast.Tuple) \
+                and unparse(loop.iter) in ('items', 'doc.items()'):
+            docvals.add(unparse(loop.target.elts[-1]))
+    m = 0
+    for loop in walk_no_defs(g.node):
+        if not isinstance(loop, ast.For):
+            continue
+        it = loop.iter
+        if isinstance(it, ast.Call) and call_name(it) == 'enumerate' and \
+                it.args:
+            it = it.args[0]
+        if not (isinstance(it, ast.Name) and it.id in docvals):
+            continue
+        m += 1
+        atoms = guardspec.atoms_at(loop, g.node)
+        ok = any(t.startswith('isinstance(%s, ' % it.id) and pol
+                 for t, pol in atoms)
+        # ... or the loop sits in a try that converts TypeError
+        p_ = loop
+        while not ok and p_ is not None and p_ is not g.node:
+            par = getattr(p_, '_parent', None)
+            if isinstance(par, ast.Try) and p_ in par.body and any(
+                    h_.type is not None and 'TypeError' in unparse(h_.type)
+                    for h_ in par.handlers):
+                ok = True
+            p_ = par
+        where = '%s:%d' % (g.module.relpath, loop.lineno)
+        res.ob('R12', where, '_doc_to_object iterates the document value %s '
+               '%s' % (it.id, 'behind a kind test' if ok else
+                       'without a kind test'), 'ok' if ok else 'VIOLATED')
+        if not ok:
+            res.finding('R12', 'HierDictDocument._doc_to_object|iterates|%s' %
+                        it.id, where, 'the document value %s is iterated '
+                        'without a kind test: a number where a list of values '
+                        'is expected raises TypeError out of the request' %
+                        it.id)
+    res.floor('R12', 'iterations over document values', m, 2)
+
+
 def run(prog, res, tier):
     res.run_rule(rule_r8, prog, res)
     res.run_rule(rule_r7, prog, res)
@@ -878,6 +967,7 @@ def run(prog, res, tier):
     res.run_rule(rule_r9, prog, res, ef)
     res.run_rule(rule_r10, prog, res)
     res.run_rule(rule_r11, prog, res)
+    res.run_rule(rule_r12, prog, res)
     res.run_rule(rule_r4, prog, res, tier)
     res.run_rule(rule_r5, prog, res)
     res.run_rule(rule_r6, prog, res, tier)
@@ -895,6 +985,16 @@ _H = 'spyne/protocol/dictdoc/hier.py'
 _MI = 'spyne/protocol/soap/mime.py'
 
 MUTANTS = [
+    Mutant('child-attribute-member-kind-unchecked', 'R12', 'fire',
+           'spyne/protocol/xml.py',
+           in_func('XmlDocument.complex_from_element',
+                   "                if not issubclass(submember, XmlAttribute):"
+                   "\n                    continue\n", ""), 'no-kind-test'),
+    Mutant('repeated-member-scalar-iterated', 'R12', 'fire', _H,
+           in_func('HierDictDocument._doc_to_object',
+                   "                if not isinstance(v, AbcIterable):\n"
+                   "                    raise ValidationError([k, v])\n", ""),
+           'iterates'),
     Mutant('json-nesting-not-converted', 'R2', 'fire', 'spyne/protocol/json.py',
            in_func('JsonDocument.create_in_document',
                    "        except RuntimeError as e:", "        except "
@@ -944,8 +1044,15 @@ MUTANTS = [
            'deserialize'),
     Mutant('yaml-only-parser-error', 'R2', 'fire', _Y,
            in_func('YamlDocument.create_in_document',
-                   "except (yaml.YAMLError, UnicodeDecodeError, LookupError)"
-                   " as e:", "except ParserError as e:"), 'YamlDocument'),
+                   "except (yaml.YAMLError, UnicodeDecodeError, LookupError, "
+                   "ValueError) as e:", "except ParserError as e:"),
+           'YamlDocument'),
+    Mutant('yaml-constructor-errors-escape', 'R2', 'fire', _Y,
+           in_func('YamlDocument.create_in_document',
+                   "except (yaml.YAMLError, UnicodeDecodeError, LookupError, "
+                   "ValueError) as e:",
+                   "except (yaml.YAMLError, UnicodeDecodeError, LookupError) "
+                   "as e:"), 'ValueError'),
     Mutant('json-only-decode-error', 'R2', 'fire', _J,
            in_func('JsonDocument.create_in_document',
                    "except (JSONDecodeError, UnicodeDecodeError, LookupError)"
